@@ -71,48 +71,69 @@ def gen_case(ck, rng, mr):
 
 
 def opkey(prog):
-    """mechanism class of a failing program: the set of node kinds that are rare enough to
-    matter is too large for a key; use the root kind"""
     return prog["nodes"][-1][0]
 
 
-def culprit(ck, I, mr, prog, x, wm):
-    """smallest node index whose own value/Jacobian already disagrees (for the mechanism key)"""
+def node_name(nd):
+    return ":".join(str(a) for a in nd[:2] if isinstance(a, str))
+
+
+def first_wrong_domain(I, mr, prog, ops):
+    """kind of the first node whose nifty operator has not the keys its parts have"""
+    free = []
+    for i, nd in enumerate(prog["nodes"]):
+        if nd[0] == "var":
+            fr = {nd[1]}
+        elif nd[0] == "vars":
+            fr = set(nd[1])
+        elif nd[0] == "subst":
+            fr = (free[nd[1]] - {nd[2]}) | free[nd[3]]
+        else:
+            fr = set().union(*[free[j] for j in mr.Gen.children(nd)])
+        free.append(fr)
+        op = ops[i]
+        if nd[0] != "vars" and isinstance(op.domain, I.MultiDomain) \
+                and set(op.domain.keys()) != fr:
+            return node_name(nd)
+    return opkey(prog)
+
+
+def culprit(I, mr, prog, x, wm):
+    """first node (in program order) whose own value/Jacobian already disagrees with the
+    mirror: names the mechanism in the violation key"""
     lay = mr.input_layout(prog)
-    xvec = lay.pack(mr.x_to_vals(prog, x))
+    xvals = mr.x_to_vals(prog, x)
+    xvec = lay.pack(xvals)
     try:
         ops = mr.build_nifty(I, prog)
     except Exception:
         return None
     dom = mr.input_domain(I, prog)
+    xf = mr.np_to_field(I, dom, xvals)
     for i, nd in enumerate(prog["nodes"]):
         if nd[0] in ("var", "vars"):
             continue
         op = ops[i]
+        multi = isinstance(op.domain, I.MultiDomain)
+        if multi and any(k not in prog["inputs"] for k in op.domain.keys()):
+            continue      # inside a substitution scope
         try:
-            free = op.domain.keys() if isinstance(op.domain, I.MultiDomain) else None
-            if free is not None and any(k not in prog["inputs"] for k in free):
-                continue      # inside a substitution scope
-            xf = mr.np_to_field(I, dom, mr.x_to_vals(prog, x))
-            xs = xf.extract(op.domain) if free is not None else xf
-            lin = op(I.Linearization.make_var(xs, wm))
-            val, vec, J, olay = mr.mirror_value_and_jac(prog, i, xvec)
-            cols = []
-            o = 0
+            o = mr.mirror_value_and_jac(prog, i, xvec)
+            sub = mr.Layout([it for it in lay.items if not multi or it[0] in op.domain.keys()])
+            cols, c0 = [], 0
             for k, s, c in lay.items:
                 n = int(np.prod(s, dtype=np.int64))*(2 if c else 1)
-                if free is None or k in free:
-                    cols += list(range(o, o + n))
-                o += n
-            sublay = mr.Layout([it for it in lay.items if free is None or it[0] in free])
-            lv = mr.field_to_np(I, lin.val)
-            ok1, _ = mr.norm_close(olay.pack(lv, expand=True), vec, RTOL)
-            Jn, _ = mr.dense_linear(I, lin.jac, sublay, op.domain, olay, True)
-            ok2, _ = mr.norm_close(Jn, J[:, cols], RTOL)
+                if not multi or k in op.domain.keys():
+                    cols += list(range(c0, c0 + n))
+                c0 += n
+            p = mr.probe_operator(I, op, xf.extract(op.domain) if multi else xf, wm, sub,
+                                  adjoint=False, metric=False)
+            ok1, _ = mr.norm_close(p.vec0, o.vec, RTOL, o.sval)
+            ok2, _ = mr.norm_close(p.J, o.J[:, cols], RTOL, o.sjac)
             if not (ok1 and ok2):
-                return ":".join(str(a) for a in nd[:2] if isinstance(a, str))
+                return node_name(nd)
         except Exception:
-            return ":".join(str(a) for a in nd[:2] if isinstance(a, str)) + "(raises)"
+            return node_name(nd) + "(raises)"
     return None
 
 
@@ -126,10 +147,10 @@ def case(ck, i):
         return
     prog, x, st = g
     wm = bool(rng.integers(0, 2))
-    desc = dict(prog=prog, wm=wm)
     nontriv = (st["nl"] >= 2 and st["bin"] >= 1) or bool(st["keytwice"] and not prog["single"])
-    ck.note(desc, nontrivial=nontriv, klass=("cplx-" if cfg["cplx"] else "real-")
-            + ("md-" if cfg["md"] else "single-") + st["root"])
+    ck.note(dict(prog=prog, wm=wm), nontrivial=nontriv,
+            klass=("cplx-" if cfg["cplx"] else "real-") + ("md-" if cfg["md"] else "single-")
+            + st["root"])
     for nd in prog["nodes"]:
         ck.hit("node:" + nd[0] + (":" + nd[1] if nd[0] in ("ptw", "lh") else ""))
     if cfg["cplx"]:
@@ -140,97 +161,101 @@ def case(ck, i):
     lay = mr.input_layout(prog)
     xvals = mr.x_to_vals(prog, x)
     xvec = lay.pack(xvals)
-    ops = mr.build_nifty(I, prog)
+    root = len(prog["nodes"]) - 1
+
+    def bad(key, msg, **w):
+        c = culprit(I, mr, prog, x, wm)
+        ck.violation(f"{key}:{c or opkey(prog)}", msg, culprit=c, **w)
+
+    try:
+        ops = mr.build_nifty(I, prog)
+    except Exception as e:
+        k = mr.nifty_exc_key(e)
+        if k is None:
+            raise
+        ck.violation(f"build-raises:{k}", f"building the operator raised {type(e).__name__}: "
+                     f"{str(e)[:200]}", node=[node_name(nd) for nd in prog["nodes"]][-4:])
+        return
     F = ops[-1]
     dom = mr.input_domain(I, prog)
     if F.domain is not dom:
-        ck.violation("domain:" + opkey(prog), "operator domain is not the union of the used keys",
-                     got=str(F.domain), want=str(dom))
+        ck.violation("domain:" + first_wrong_domain(I, mr, prog, ops), "operator domain is not "
+                     "the union of the domains of its parts", got=str(F.domain), want=str(dom))
         return
     xf = mr.np_to_field(I, dom, xvals)
 
-    # ---- mirror -------------------------------------------------------------
-    val_m, vec_m, J_m, olay = mr.mirror_value_and_jac(prog, len(prog["nodes"]) - 1, xvec)
-    if not np.all(np.isfinite(J_m)) or not np.all(np.isfinite(vec_m)):
+    # ---- mirror ---------------------------------------------------------------------
+    stats = ck.state.setdefault("ostats", {})
+    o = mr.mirror_value_and_jac(prog, root, xvec, stats=stats)
+    if not np.all(np.isfinite(o.J)) or not np.all(np.isfinite(o.vec)):
         ck.skip("mirror not finite at the point")
         return
-    if np.max(np.abs(J_m), initial=0.) > 1e8:
+    if o.sjac > 1e8:
         ck.skip("Jacobian too large for the fixed tolerance")
         return
 
-    # ---- real code ------------------------------------------------------------
-    v0 = F(xf)
-    lin = F(I.Linearization.make_var(xf, wm))
-    what = None
-
-    def bad(key, msg, **w):
-        c = culprit(ck, I, mr, prog, x, wm)
-        ck.violation(f"{key}:{c or opkey(prog)}", msg, culprit=c, **w)
-
-    # target / layout
-    v0n = mr.field_to_np(I, v0)
-    if isinstance(v0n, dict) != olay.multi or (olay.multi and sorted(v0n) != [k for k, _, _
-                                                                              in olay.items]):
+    # ---- real code --------------------------------------------------------------------
+    try:
+        p = mr.probe_operator(I, F, xf, wm, lay)
+    except mr.NiftyRaised as e:
+        ck.violation(f"raises:{e.phase}:{e.key}", f"{e.phase} raised inside NIFTy: {e}",
+                     nodes=[node_name(nd) for nd in prog["nodes"]])
+        return
+    if p.tlay.multi != o.olay.multi or [(k, s) for k, s, _ in p.tlay.items] != \
+            [(k, s) for k, s, _ in o.olay.items]:
         bad("target", "value lives on a different (multi-)domain than the expression says")
         return
     ck.hit("value_cmp")
-    ok, dev = mr.norm_close(olay.pack(v0n, expand=True), vec_m, RTOL)
+    ok, dev = mr.norm_close(p.vec0, o.vec, RTOL, o.sval)
     if not ok:
         bad("value", "F(x) differs from the mirror value", reldev=dev)
         return
     ck.hit("linval_cmp")
-    lvn = mr.field_to_np(I, lin.val)
-    ok, dev = mr.norm_close(olay.pack(lvn, expand=True), olay.pack(v0n, expand=True), 1e-13)
+    ok, dev = mr.norm_close(p.veclin, p.vec0, 1e-13, o.sval, 1e-14)
     if not ok:
         bad("linval", "value through a Linearization differs from plain evaluation", reldev=dev)
         return
+    lin = p.lin
     if lin.want_metric != wm:
         bad("want_metric", "want_metric flag lost", got=lin.want_metric, want=wm)
     if lin.jac.domain is not F.domain or lin.jac.target is not F.target:
         bad("jacdomain", "Jacobian domain/target differ from the operator's")
         return
-
-    # Jacobian
     ck.hit("jac_cmp")
-    Jn, _ = mr.dense_linear(I, lin.jac, lay, dom, olay, True)
-    ok, dev = mr.norm_close(Jn, J_m, RTOL)
+    ok, dev = mr.norm_close(p.J, o.J, RTOL, o.sjac)
     if not ok:
-        bad("jac", "dense Jacobian differs from jax.jacfwd of the mirror", reldev=dev,
-            got=np.round(Jn, 6).tolist()[:4], want=np.round(J_m, 6).tolist()[:4])
+        bad("jac", "dense Jacobian differs from jax forward-mode autodiff of the mirror",
+            reldev=dev, got=np.round(p.J, 6).tolist()[:3], want=np.round(o.J, 6).tolist()[:3])
         return
-    # adjoint = transpose of the real matrix
     ck.hit("adjoint_cmp")
-    tlay = mr.layout_of_value(I, v0)           # natural layout of the target
-    An, _ = mr.dense_linear(I, lin.jac.adjoint, tlay, F.target, lay, False)
-    want = olay.restrict_rows(J_m).T if True else None
-    # olay marks cplx from the mirror dtype; tlay from the NIFTy dtype: they must agree
-    if [c for _, _, c in tlay.items] != [c for _, _, c in olay.items]:
-        # value is real in one world and complex (zero imaginary part) in the other: use NIFTy's
-        olay2 = mr.Layout([(k, s, c) for (k, s, _), (_, _, c) in zip(olay.items, tlay.items)])
-        want = olay2.restrict_rows(J_m).T
-    ok, dev = mr.norm_close(An, want, RTOL)
+    ok, dev = mr.norm_close(p.A, p.tlay.restrict_rows(o.J).T, RTOL, o.sjac)
     if not ok:
         bad("adjoint", "jac.adjoint is not the transpose of the real Jacobian matrix", reldev=dev)
         return
 
-    # metric
-    M_exp = mr.expected_metric(prog, len(prog["nodes"]) - 1, xvec) if wm else None
+    # metric: carried iff requested and the root is a likelihood energy
     if not mr.is_energy_root(prog) or not wm:
         ck.hit("metric_absent_cmp")
         if lin.metric is not None:
             bad("metric-unexpected", "a metric is present although "
                 + ("it was not requested" if not wm else "the root is no likelihood energy"))
-    else:
-        if lin.metric is None:
-            bad("metric-missing", "metric requested at a likelihood-energy root but None returned")
-        elif M_exp is not None:
-            ck.hit("metric_cmp")
-            if lin.metric.domain is not F.domain or lin.metric.target is not F.domain:
-                bad("metricdomain", "metric is not an endomorphism of the operator domain")
-                return
-            Mn, _ = mr.dense_linear(I, lin.metric, lay, dom, lay, False)
-            ok, dev = mr.norm_close(Mn, M_exp, RTOL)
-            if not ok:
-                bad("metric", "metric differs from J^T M_lh J", reldev=dev)
-        else:
-            ck.hit("metric_present_only")
+        return
+    if lin.metric is None:
+        bad("metric-missing", "metric requested at a likelihood-energy root but None returned")
+        return
+    me = mr.expected_metric(prog, root, xvec)
+    if me is None:
+        ck.hit("metric_present_only")
+        return
+    ck.hit("metric_cmp")
+    if lin.metric.domain is not F.domain or lin.metric.target is not F.domain:
+        bad("metricdomain", "metric is not an endomorphism of the operator domain")
+        return
+    ok, dev = mr.norm_close(p.M, me[0], RTOL, me[1])
+    if not ok:
+        bad("metric", "metric differs from J^T M_lh J", reldev=dev)
+
+
+def fini(ck):
+    for k, v in ck.state.get("ostats", {}).items():
+        ck.hit("oracle:" + k, v)
